@@ -16,6 +16,9 @@ SUITES = {
     "PARSE-PATH": parse_suite("path", 3, 4),
     "PARSE-QUAL": parse_suite("qual", 3, 4),
     "PARSE-TYPED": parse_suite("typed", 3, 4),
+    "PARSE-NS": parse_suite("nsseg", 3, 4),
+    "PARSE-SUB": parse_suite("subseg", 3, 4),
+    "PARSE-QUALS2": parse_suite("quals2", 4, 5),
 }
 
 FORMAT_INVS = ["C09_BuildOk", "C03_Render", "C09_ParseBack", "C04_Valid", "Emit"]
@@ -69,22 +72,41 @@ SUITES.update({
                      describe="random operation sequences (TLC -simulate) replayed on one live collection, result and content compared after every call"),
 })
 
+TYPES_INVS = ["C08_NameRule", "C08_Judged", "C10_Rebuild", "C01_RoundTrip", "C15_Lookup", "C15_Names", "C18_Split",
+              "C18_Inverse", "EmitNames", "EmitLookup", "EmitCombined"]
+
+
+def types_suite(mode, lq, lt, what):
+    return dict(module="MC_Types", kind="bfs", invariants=TYPES_INVS, replay=["--serde"],
+                quick=dict(MODE='"%s"' % mode, L=lq), thorough=dict(MODE='"%s"' % mode, L=lt), describe=what)
+
+
+SUITES.update({
+    "TYPES-NAMES": types_suite("names", 3, 5, "every name over {a A 1 - _ . AE Dz(titlecase)} up to length L x {pypi nuget cargo npm maven}: parsed raw, parsed fully escaped, built"),
+    "TYPES-LOOKUP": types_suite("lookup", 0, 0, "all case variants of the seven names, one-edit neighbours over letters and look-alikes, padded / doubled names, 25 other PURL type names"),
+    "TYPES-COMB": types_suite("combined", 4, 6, "every combined name over {a b / :} up to length L x seven types"),
+})
+
 # drivers: name -> dict(trace module, events per tier)
 DRIVERS = {
 }
 
-PARSE_ALL = ["PARSE-SEP", "PARSE-PATH", "PARSE-QUAL", "PARSE-TYPED"]
+PARSE_ALL = ["PARSE-SEP", "PARSE-PATH", "PARSE-QUAL", "PARSE-TYPED", "PARSE-NS", "PARSE-SUB", "PARSE-QUALS2"]
 BUILD_ALL = ["BUILDER-G", "BUILDER-T", "BUILDER-SIM-G", "BUILDER-SIM-T"]
 PROPS = {
-    "C01": dict(suites=PARSE_ALL + ["FORMAT-1"], drivers=[]),
+    "C01": dict(suites=PARSE_ALL + ["FORMAT-1", "TYPES-NAMES"], drivers=[]),
     "C02": dict(suites=PARSE_ALL, drivers=[]),
     "C03": dict(suites=["FORMAT-1", "FORMAT-2", "PARSE-QUAL", "BUILDER-G"], drivers=[]),
     "C04": dict(suites=PARSE_ALL + BUILD_ALL, drivers=[]),
     "C05": dict(suites=PARSE_ALL, drivers=[]),
+    "C07": dict(suites=["PARSE-NS", "PARSE-SUB", "PARSE-PATH", "PARSE-SEP"], drivers=[]),
+    "C08": dict(suites=["TYPES-NAMES", "PARSE-TYPED", "BUILDER-T", "TYPES-COMB"], drivers=[]),
     "C09": dict(suites=BUILD_ALL + ["FORMAT-1", "FORMAT-2"], drivers=[]),
     "C10": dict(suites=PARSE_ALL + ["BUILDER-G", "BUILDER-T", "FORMAT-1"], drivers=[]),
     "C11": dict(suites=["QUAL", "QUAL-SIM"], drivers=[]),
     "C13": dict(suites=["PARSE-SEP", "PARSE-PATH", "BUILDER-G", "BUILDER-SIM-G", "FORMAT-1"], drivers=[]),
+    "C15": dict(suites=["TYPES-LOOKUP", "PARSE-TYPED"], drivers=[]),
+    "C18": dict(suites=["TYPES-COMB"], drivers=[]),
 }
 
 ASSUMPTIONS_COMMON = [
